@@ -203,9 +203,10 @@ func (c *Ctx) checkDispatchShape(lazy []core.TableEntry) {
 			}
 			r.Check(good, "R14.2", name+"/not-dagpb", pos, "a node that is not dag-pb is returned unchanged with a nil error", "the !ok edge of the dag-pb assertion does not return the parameter itself with a nil error")
 		}
-		// default reifier: the callee of returns guarded by !Data.Exists()
+		// default reifier: the callee of returns taken when Data is absent / undecodable (the two conditions may be tested in
+		// the dispatcher itself or in a comma-ok helper whose false result the dispatcher branches on)
 		var defFn *ssa.Function
-		absentOK := false
+		absentOK, decodeOK := false, false
 		for _, ret := range core.Returns(fn) {
 			rr := core.ResolvedResults(ret)
 			ex, ok := rr[0].(*ssa.Extract)
@@ -216,53 +217,27 @@ func (c *Ctx) checkDispatchShape(lazy []core.TableEntry) {
 			if !ok || call.Call.StaticCallee() == nil {
 				continue
 			}
-			if core.GuardedBy(ret.Block(), func(cond ssa.Value) (bool, bool) {
-				neg := false
-				if u, ok := cond.(*ssa.UnOp); ok && u.Op == token.NOT {
-					cond, neg = u.X, true
-				}
-				if c.existsCond2(cond) == "Data" {
-					return neg == false == false, true
-				}
-				return false, false
-			}) {
+			facts := c.unixfsFailureFacts(fn, ret.Block(), 0)
+			if facts["no-data"] {
 				defFn = call.Call.StaticCallee()
 				absentOK = true
 			}
 		}
-		r.Check(absentOK, "R14.2", name+"/no-data", pos, "absent Data returns the default reifier's result ("+core.FuncName(defFn)+")", "no return of a default reifier guarded by !Data.Exists()")
-		// decode failure
-		decodeOK := false
-		for _, ci := range core.CallsIn(fn) {
-			call, ok := ci.(*ssa.Call)
-			if !ok || call.Call.StaticCallee() == nil || !strings.HasPrefix(call.Call.StaticCallee().Name(), "Decode") {
+		for _, ret := range core.Returns(fn) {
+			rr := core.ResolvedResults(ret)
+			ex, ok := rr[0].(*ssa.Extract)
+			if !ok {
 				continue
 			}
-			ev := extractOf(call, 1)
-			if ev == nil {
+			rc, ok := ex.Tuple.(*ssa.Call)
+			if !ok || rc.Call.StaticCallee() != defFn || defFn == nil {
 				continue
 			}
-			for _, ret := range core.Returns(fn) {
-				rr := core.ResolvedResults(ret)
-				ex, ok := rr[0].(*ssa.Extract)
-				if !ok {
-					continue
-				}
-				rc, ok := ex.Tuple.(*ssa.Call)
-				if !ok || rc.Call.StaticCallee() != defFn || defFn == nil {
-					continue
-				}
-				if core.GuardedBy(ret.Block(), func(cond ssa.Value) (bool, bool) {
-					x, trueMeansNil, ok := core.NilCmp(cond)
-					if !ok || x != ev {
-						return false, false
-					}
-					return !trueMeansNil, true
-				}) {
-					decodeOK = true
-				}
+			if c.unixfsFailureFacts(fn, ret.Block(), 0)["decode-failed"] {
+				decodeOK = true
 			}
 		}
+		r.Check(absentOK, "R14.2", name+"/no-data", pos, "absent Data returns the default reifier's result ("+core.FuncName(defFn)+")", "no return of a default reifier guarded by !Data.Exists()")
 		r.Check(decodeOK, "R14.2", name+"/undecodable-data", pos, "a decode error returns the default reifier's result", "no return of the default reifier guarded by the decode error")
 		// table miss
 		missOK := false
@@ -735,4 +710,74 @@ func (c *Ctx) checkDispatchTotality() {
 	r.Analysed["dispatch_functions"] = n
 	r.Floor("R14.5/functions", n, 4)
 	_ = nsites
+}
+
+// unixfsFailureFacts: the reasons ("no-data": the Data field is absent, "decode-failed": the UnixFS decoder returned an
+// error) established on every path to block blk of fn — tested in fn itself, or in a comma-ok helper of the repository
+// whose constant-false result fn branches on.
+func (c *Ctx) unixfsFailureFacts(fn *ssa.Function, blk *ssa.BasicBlock, depth int) map[string]bool {
+	facts := map[string]bool{}
+	if core.GuardedBy(blk, func(cond ssa.Value) (bool, bool) {
+		neg := false
+		if u, ok := cond.(*ssa.UnOp); ok && u.Op == token.NOT {
+			cond, neg = u.X, true
+		}
+		if c.existsCond2(cond) == "Data" {
+			return neg, true
+		}
+		return false, false
+	}) {
+		facts["no-data"] = true
+	}
+	for _, ci := range core.CallsIn(fn) {
+		call, ok := ci.(*ssa.Call)
+		if !ok || call.Call.StaticCallee() == nil {
+			continue
+		}
+		callee := call.Call.StaticCallee()
+		if strings.HasPrefix(callee.Name(), "Decode") {
+			if ev := extractOf(call, 1); ev != nil && core.GuardedBy(blk, func(cond ssa.Value) (bool, bool) {
+				x, trueMeansNil, ok := core.NilCmp(cond)
+				if !ok || x != ev {
+					return false, false
+				}
+				return !trueMeansNil, true
+			}) {
+				facts["decode-failed"] = true
+			}
+			continue
+		}
+		// comma-ok helper
+		if _, isRepo := c.P.PkgOf(callee); !isRepo || depth > 1 || len(callee.Blocks) == 0 {
+			continue
+		}
+		res := callee.Signature.Results()
+		if res.Len() < 2 || !isBasic(res.At(res.Len()-1).Type(), types.Bool) {
+			continue
+		}
+		okv := extractOf(call, res.Len()-1)
+		if okv == nil {
+			continue
+		}
+		if !core.GuardedBy(blk, func(cond ssa.Value) (bool, bool) {
+			if cond == okv {
+				return false, true
+			}
+			if u, ok := cond.(*ssa.UnOp); ok && u.Op == token.NOT && u.X == okv {
+				return true, true
+			}
+			return false, false
+		}) {
+			continue
+		}
+		for _, ret := range core.Returns(callee) {
+			rr := core.ResolvedResults(ret)
+			if cst, isC := rr[res.Len()-1].(*ssa.Const); isC && cst.Value != nil && cst.Value.Kind() == constant.Bool && !constant.BoolVal(cst.Value) {
+				for f := range c.unixfsFailureFacts(callee, ret.Block(), depth+1) {
+					facts[f] = true
+				}
+			}
+		}
+	}
+	return facts
 }
